@@ -14,6 +14,7 @@ from typing import Any, Dict, List, Optional, Tuple
 from rpv.checks.inproc_util import candidate_days, clean_cut, get_ip, sched_from_json, sched_json
 from rpv.gen import METHODS, OUT_TYPES, Profile, dstr, fmt_ts, history, own_years, parse_ts, schedule
 from rpv.model import Model
+from rpv.workload import deepen
 from rpv.oracle.balance import is_valid
 
 PROPERTY_ID = "C09"
@@ -202,7 +203,7 @@ def run_shard(ctx: Any) -> None:
     done = 0
     while done < share and (ctx.budget_s - ctx.time_left()) < ctx.budget_s * 0.75:
         rng = ctx.rng("case", index)
-        hist = history(rng, PROFILES[index % len(PROFILES)])
+        hist = history(rng, deepen(ctx, index, PROFILES[index % len(PROFILES)]))
         if is_valid(Model(hist)):
             years = own_years(hist)
             scheds = [{1970: m} for m in rng.sample(list(METHODS), 2)]
